@@ -335,7 +335,7 @@ def run_case(desc, ctx):
 
     # ---------------- minimal spanning tree
     for rep in range(2):
-        mode = ["one", "length", "dict", "attr", "dict_ties"][(desc["seed"] + rep) % 5]
+        mode = ["one", "length", "dict", "attr", "dict_ties", "dict_zero_or_small", "attr_partly_unset"][(desc["seed"] + rep) % 7]
         salt = rng.randrange(2 ** 31)
 
         def w(e):
@@ -344,6 +344,9 @@ def run_case(desc, ctx):
             if mode == "length":
                 return float(np.linalg.norm(np.asarray(V[e[0]], float) - np.asarray(V[e[1]], float)))
             r = random.Random((e[0] * 1000003 + e[1]) ^ salt)
+            if mode in ("dict_zero_or_small", "attr_partly_unset"):
+                # free edges (cost exactly 0: a 0/1 cost, or an entry of a sparse attribute that was never written) next to costs below 1
+                return 0.0 if r.random() < 0.35 else r.choice([0.25, 0.5, 1.0, r.uniform(0.05, 0.95)])
             return float(r.randint(1, 3)) if mode == "dict_ties" else r.uniform(0.1, 5)
         if mode in ("one", "length"):
             warg = mode
@@ -351,6 +354,11 @@ def run_case(desc, ctx):
             warg = m.edges.create_attribute("mst_w%d" % rep, float)
             for i, e in enumerate(edges):
                 warg[i] = w(e)
+        elif mode == "attr_partly_unset":
+            warg = m.edges.create_attribute("mst_w%d" % rep, float)
+            for i, e in enumerate(edges):
+                if w(e) != 0.0:
+                    warg[i] = w(e)
         else:
             warg = {i: w(e) for i, e in enumerate(edges)}
         avoid_b = (g != "polyline") and rep == 1
